@@ -37,7 +37,9 @@ theorem fact_cmdDelConsumesThenResavesFailures :
 /-- `setNetInterface`: index 0 gets kubelet's interface, otherwise the annotation's, otherwise `eth<idx>`. -/
 theorem fact_interface_default_format (netIf argIf : Str) (idx : Nat) :
     setNetInterface netIf idx argIf =
-      if idx = 0 then argIf else if netIf ≠ [] then netIf else ['e', 't', 'h'] ++ Nat.toDigits 10 idx := rfl
+      if idx = 0 then argIf else if netIf ≠ [] then netIf else ['e', 't', 'h'] ++ Nat.toDigits 10 idx := by
+  unfold setNetInterface
+  by_cases h1 : idx = 0 <;> by_cases h2 : netIf = [] <;> simp [h1, h2]
 
 /-- `k=v` entries joined by `;`, accumulated with `;`, trailing `;` trimmed, parsed by splitting on `;` then on the
     first `=`. -/
